@@ -443,11 +443,16 @@ class ShapeInterp:
         if f in ("np.reshape",):
             v, sh = A(0), A(1)
             return self._reshape(v, sh, ast.unparse(e))
-        if f == "np.where" and len(args) == 1:
+        if f in ("np.where", "np.nonzero") and len(args) == 1:
             v = A(0)
             if isinstance(v, Arr) and len(v.shape) == 1:
                 return ListOf(ONE, Arr((self.new_dim(v.shape[0]),)))
             raise Undecided("np.where")
+        if f == "np.flatnonzero" and len(args) == 1:
+            v = A(0)
+            if isinstance(v, Arr) and len(v.shape) == 1:
+                return Arr((self.new_dim(v.shape[0]),))
+            raise Undecided("np.flatnonzero")
         if f == "deepcopy":
             return A(0)
         if f == "dict" or f == "zip":
